@@ -345,7 +345,8 @@ def h_image(shape: int, mode: int, freq: int, top: int, perm: int, fill: int, ve
         else:               # orphan only through sharing (the C02b situation)
             vols, perfs = [("VolA", [0, 1]), ("VolB", [0])], [("Perf0", [0, 1]), ("Perf1", [0]), ("Perf2", [1])]
         model = {"volumes": vols, "performances": perfs, "patches": [("Patch0", [0]), ("Patch1", [1])],
-                 "partials": [("Part0", [0, 1, 0]), ("Part1", [2, 2, 4])], "samples": [s0, s1, s2, s3, s4], "fat_version": ver}
+                 "partials": [("Part0", [0, 1, 0]), ("Part1", [-1, 2, -1, 4])],      # Part1: used slots behind unused ones
+                 "samples": [s0, s1, s2, s3, s4], "fat_version": ver}
         img = rolandw.build(model)
         try:
             image = actions.determine_image_type(io.BufferedReader(io.BytesIO(img)))
